@@ -2,6 +2,7 @@ import Verif.Gen.Currency
 import Verif.Lemmas.C18
 import Verif.Lemmas.F64
 import Verif.Lemmas.Zcn
+import Verif.Lemmas.Msgp
 /-! # C18 — currency arithmetic is exact or fails loudly
 
 Every theorem here is about the definitions in `Verif/Gen/Currency.lean`, which `go/xlate` REGENERATES from
@@ -13,6 +14,7 @@ exact result being computed in `Nat`/`Int` (no wrap-around) and embedded with `B
 embedding is injective, so the returned bits are pinned. `.panic` never occurs (`no_panic`). -/
 namespace Verif.Props.C18
 open Verif.GoSem Verif.F64 Verif.Dec Verif.Gen Verif.Gen.Currency Verif.Lemmas.C18 Verif.Lemmas.F64 Verif.Lemmas.Zcn
+open Verif.Msgp Verif.Lemmas.Msgp
 
 /-- pins the set of translated functions: a function added to currency.go must get its theorems here -/
 theorem generated_functions : generatedFunctions =
@@ -460,5 +462,180 @@ example : parseDec ⟨15, -1⟩ = .ok 15000000000#64 := by decide
 example : ParseZCN (F64.mk 0x3ff8000000000000#64) ⟨15, -1⟩ = .ok 15000000000#64 := by decide
 example : Float64ToCoin (F64.mk 0x43efffffffffffff#64) = .ok 18446744073709549568#64 := by decide +kernel
 example : Float64ToCoin (F64.mk 0x43f0000000000000#64) = .err .ErrTooLarge := by decide +kernel
+
+/-! ## "never a silently wrapped or saturated amount" — the corollaries the property names -/
+
+/-- every value an integer helper returns satisfies the exact-arithmetic relation in ℕ/ℤ (no wrap-around):
+    the `toNat` of the result IS the mathematical sum / product / difference / quotient / remainder / minimum -/
+theorem no_silent_wrap_int :
+    (∀ a b v, AddCoin a b = .ok v → v.toNat = a.toNat + b.toNat) ∧
+    (∀ a b v, MultCoin a b = .ok v → v.toNat = a.toNat * b.toNat) ∧
+    (∀ a b v, MinusCoin a b = .ok v → v.toNat + b.toNat = a.toNat) ∧
+    (∀ c (a : I64) v, AddInt64 c a = .ok v → (v.toNat : Int) = c.toNat + a.toInt ∧ 0 ≤ a.toInt) ∧
+    (∀ c (a : I64) v, MinusInt64 c a = .ok v → (v.toNat : Int) = c.toNat - a.toInt ∧ 0 ≤ a.toInt) ∧
+    (∀ c (a : I64) q r, DistributeCoin c a = .ok (q, r) →
+        0 < a.toInt ∧ (c.toNat : Int) = q.toNat * a.toInt + r.toNat ∧ (r.toNat : Int) < a.toInt) ∧
+    (∀ (a : I64) v, Int64ToCoin a = .ok v → (v.toNat : Int) = a.toInt) ∧
+    (∀ (c : Coin) (v : I64), Coin_Int64 c = .ok v → v.toInt = c.toNat) ∧
+    (∀ a b v, Currency.Min a b = .ok v → v.toNat = min a.toNat b.toNat) := by
+  refine ⟨?_, ?_, ?_, ?_, ?_, ?_, ?_, ?_, ?_⟩
+  · intro a b v h
+    rw [addCoin_spec] at h
+    split at h
+    · cases h; simp; omega
+    · cases h
+  · intro a b v h
+    rw [multCoin_spec] at h
+    split at h
+    · rename_i hlt; cases h; simp; exact hlt
+    · cases h
+  · intro a b v h
+    have := a.isLt
+    rw [minusCoin_spec] at h
+    split at h
+    · cases h; simp; omega
+    · cases h
+  · intro c a v h
+    have := c.isLt
+    rw [addInt64_spec] at h
+    split at h
+    · cases h
+    · split at h
+      · cases h; simp; omega
+      · cases h
+  · intro c a v h
+    have := c.isLt
+    rw [minusInt64_spec] at h
+    split at h
+    · cases h
+    · split at h
+      · cases h; simp; omega
+      · cases h
+  · intro c a q r h
+    have hc := c.isLt
+    rw [distribute_spec] at h
+    split at h
+    · cases h
+    · split at h
+      · cases h
+      · rename_i h1 h2
+        have hpos : 0 < a.toInt := by omega
+        obtain ⟨n, hn⟩ : ∃ n : Nat, a.toInt = (n : Int) := ⟨a.toInt.toNat, by omega⟩
+        have hnpos : 0 < n := by omega
+        injection h with h
+        injection h with hq hr
+        subst hq; subst hr
+        rw [hn]
+        simp only [Int.toNat_natCast, BitVec.toNat_ofNat]
+        have hq' : c.toNat / n % 2 ^ 64 = c.toNat / n :=
+          Nat.mod_eq_of_lt (Nat.lt_of_le_of_lt (Nat.div_le_self _ _) hc)
+        have hr' : c.toNat % n % 2 ^ 64 = c.toNat % n :=
+          Nat.mod_eq_of_lt (Nat.lt_of_le_of_lt (Nat.mod_le _ _) hc)
+        rw [hq', hr']
+        refine ⟨by omega, ?_, ?_⟩
+        · have := Nat.div_add_mod c.toNat n
+          rw [Nat.mul_comm] at this
+          exact_mod_cast this.symm
+        · exact_mod_cast Nat.mod_lt _ hnpos
+  · intro a v h
+    have := a.isLt
+    rw [int64ToCoin_spec] at h
+    split at h
+    · cases h
+    · cases h
+      rename_i hnn
+      rw [toInt_nonneg_toNat a (by omega)]
+      simp
+      rw [BitVec.toInt_eq_toNat_cond] at hnn ⊢
+      split <;> split at hnn <;> omega
+  · intro c v h
+    rw [coinInt64_spec] at h
+    split at h
+    · rename_i hlt; cases h; exact coinInt64_value c hlt
+    · cases h
+  · intro a b v h
+    have := a.isLt
+    have := b.isLt
+    rw [min_spec] at h
+    cases h
+    simp
+    omega
+
+/-- a value returned by the float conversions is never a saturated or wrapped amount: the float that was converted
+    (for MultFloat64: the IEEE product `float64(c) · a`) is finite, not below zero and below `2^64`, and the returned
+    amount is exactly its integer part -/
+theorem no_saturation_float :
+    (∀ x v, Float64ToCoin x = .ok v →
+      ∃ s m e, x.val = .fin s m e ∧ (s = false ∨ m = 0) ∧ truncNat m e < 2 ^ 64 ∧ v.toNat = truncNat m e) ∧
+    (∀ c a v, MultFloat64 c a = .ok v → F64.lt a Z = false ∧
+      ∃ s m e, (F64.mul (F64.ofUInt64 c) a).val = .fin s m e ∧ (s = false ∨ m = 0) ∧ truncNat m e < 2 ^ 64 ∧
+        v.toNat = truncNat m e) := by
+  have hf : ∀ x v, Float64ToCoin x = .ok v →
+      ∃ s m e, x.val = .fin s m e ∧ (s = false ∨ m = 0) ∧ truncNat m e < 2 ^ 64 ∧ v.toNat = truncNat m e := by
+    intro x v h
+    rw [float64ToCoin_spec] at h
+    unfold f2cSpec at h
+    split at h
+    · cases h
+    · cases h
+    · cases h
+    · rename_i s m e hv
+      split at h
+      · cases h
+      · rename_i hs
+        split at h
+        · cases h
+        · rename_i hr
+          cases h
+          refine ⟨s, m, e, hv, ?_, by omega, ?_⟩
+          · cases s
+            · exact Or.inl rfl
+            · right
+              apply Classical.byContradiction
+              intro hm; exact hs ⟨rfl, hm⟩
+          · simp; omega
+  refine ⟨hf, ?_⟩
+  intro c a v h
+  rw [multFloat64_spec] at h
+  split at h
+  · cases h
+  · rename_i hlt
+    exact ⟨by simpa using hlt, hf _ _ h⟩
+
+/-! ## msgp codec of `Coin` (currency_gen.go)
+
+`currency_gen.go` is generated code over the msgp library and is not translated; its model is
+`Verif/Model/Msgp.lean` (AppendUint64 / ReadUint64Bytes byte for byte, every Go slice index an explicit `.panic`),
+tied to the compiled code by the ops `menc`/`mdec` of suite c18 (boundary amounts; all 256 lead bytes × payload
+lengths 0..10; malformed streams). The shape of the Go methods is extracted by go/xlate and pinned here. -/
+
+/-- the three codec methods still are thin wrappers of exactly these msgp members -/
+theorem codec_shape : codecCalls =
+    [("Coin.MarshalMsg", ["Require", "AppendUint64"]), ("*Coin.UnmarshalMsg", ["ReadUint64Bytes", "WrapError"]),
+     ("Coin.Msgsize", ["Uint64Size"])] := by decide
+
+/-- decoding an encoded amount returns the amount and exactly the bytes that followed it
+    (`rest = []`: `decode (encode c) = (c, [])`) -/
+theorem coin_msgp_roundtrip (c : Coin) (rest : Bytes) :
+    unmarshalCoin (marshalCoin [] c ++ rest) = .ok (c, rest) := by
+  unfold unmarshalCoin marshalCoin
+  rw [List.nil_append, readUint64_appendUint64 c.toNat c.isLt rest]
+  simp
+
+/-- encoding appends to the given buffer and never writes more than `Msgsize` bytes -/
+theorem coin_msgsize_bound (pre : Bytes) (c : Coin) :
+    marshalCoin pre c = pre ++ marshalCoin [] c ∧ (marshalCoin [] c).length ≤ uint64Size := by
+  unfold marshalCoin
+  exact ⟨by simp, by simpa using appendUint64_length c.toNat⟩
+
+/-- the decoder is total: for every byte string it returns a value or an error, it never indexes out of range -/
+theorem coin_msgp_decode_total (b : Bytes) : unmarshalCoin b ≠ .panic := by
+  unfold unmarshalCoin
+  have := readUint64_ne_panic b
+  split <;> simp_all
+
+example : marshalCoin [] (300#64 : Coin) = [0xcd, 0x01, 0x2c] := by decide
+example : unmarshalCoin [0xd0, 0xff] = .err (.belowZero (-1)) := by decide
+example : unmarshalCoin [0xcd, 0x01] = .err .short := by decide
 
 end Verif.Props.C18
